@@ -95,6 +95,18 @@ def build_filters(ctx, features_drop=()):
             filters.append(orchain(terms)); filters.append(orchain(terms[:3])); filters.append(ast.UnaryOp(ast.Not(), orchain(terms)))
             filters.append(ast.BoolOp(ast.Or(), terms[0], ast.BoolOp(ast.Or(), terms[1], ast.BoolOp(ast.Or(), terms[2], terms[3]))))      # right-nested
         filters.append(orchain(eqs)); filters.append(orchain([ast.Compare(ast.NotEq(), I(col), l) for l in lits]))
+    # filters of ONE shape that differ only in a literal INSIDE a function of literals, one after the other (statement caches keyed on the shape
+    # must not carry the first filter's constant into the next)
+    for lits in (["ABC", "AB", "B", "A", "O'B"], ["abc", "ab", "b", "a", "é"]):
+        for l in lits:
+            filters += [ast.Compare(ast.Eq(), call("tolower", I("s1")), call("tolower", S(l))), ast.Compare(ast.Eq(), call("toupper", I("s1")), call("toupper", S(l))),
+                        ast.Compare(ast.Eq(), I("s1"), call("trim", S(" " + l + " "))), ast.Compare(ast.Eq(), I("i1"), call("length", S(l))),
+                        ast.Compare(ast.Eq(), I("s1"), call("tolower", S(l))), ast.Compare(ast.NotEq(), I("s1"), call("toupper", S(l))),
+                        call("contains", S(l), I("s1")), call("startswith", call("tolower", S(l)), I("s1"))]
+            if "concat" not in features_drop:
+                filters += [ast.Compare(ast.Eq(), call("concat", S(l), I("s1")), S("abc")), ast.Compare(ast.Eq(), call("concat", I("s1"), call("tolower", S(l))), S("abc"))]
+            if "substring" not in features_drop:
+                filters += [ast.Compare(ast.Eq(), I("s1"), call("substring", S(l), ast.Integer("1")))]
     uniq = sc.dedup(filters)
     nodes = [n for w, n in uniq]
     texts = texts_of(nodes)
